@@ -382,6 +382,23 @@ func (p *peer) serve() {
 					atomic.StoreInt32(&p.closed, 1)
 					p.conn.Close()
 					return
+				case "fin":
+					// an orderly shutdown: everything sent so far was a whole frame, FIN follows,
+					// and the requests still arriving are consumed (no reset)
+					atomic.StoreInt32(&p.closed, 1)
+					p.mu.Lock()
+					p.conn.CloseWrite()
+					p.mu.Unlock()
+					for {
+						select {
+						case _, ok := <-in:
+							if !ok {
+								return
+							}
+						case <-p.stop:
+							return
+						}
+					}
 				case "reset":
 					atomic.StoreInt32(&p.closed, 1)
 					p.conn.SetLinger(0)
@@ -439,6 +456,15 @@ func matchScenario(c *ctx, r *vk.Rand, fault string) {
 		p.faultKind = fault
 		p.faultAt = r.Range(1, total*3/4+1)
 		p.lateFor = 1900 * time.Millisecond
+	}
+	if fault == "fin" {
+		// deadlines far away: a call that fails with the deadline error only noticed the close by timing out
+		types.RPCReadTimeout, types.RPCWriteTimeout = 8*time.Second, 8*time.Second
+		rpc.SetRPCTimeout()
+		defer func() {
+			types.RPCReadTimeout, types.RPCWriteTimeout = time.Second, time.Second
+			rpc.SetRPCTimeout()
+		}()
 	}
 	go p.serve()
 	defer close(p.stop)
@@ -575,6 +601,16 @@ func matchScenario(c *ctx, r *vk.Rand, fault string) {
 			}
 			c.res.Count("fault_not_reached", 1)
 			return
+		}
+		if fault == "fin" {
+			for g := range recs {
+				for _, rc := range recs[g] {
+					if rc.Err == "r/w timeout" {
+						c.fail("close-noticed-only-by-deadline", fmt.Sprintf("the peer shut the connection down in an orderly way, yet %s(offset=%d) failed %v later with the 8 s deadline error: pending requests hang until their deadline instead of failing with the connection", rc.Op, rc.Off, rc.Took), nil)
+						return
+					}
+				}
+			}
 		}
 		for g := range recs {
 			for _, rc := range recs[g] {
@@ -757,6 +793,116 @@ func e2eScenario(c *ctx, r *vk.Rand) {
 	}
 }
 
+// deadlineScenario: reads and writes have separately configured deadlines and
+// each is enforced for its own operation. One request is answered 3 s late;
+// with a 1 s deadline for its type the call must fail (and the failure be
+// reported), with a 5 s deadline it must succeed.
+func deadlineScenario(c *ctx, r *vk.Rand, variant int) {
+	a, b, err := tcpPair()
+	if err != nil {
+		c.res.Inconclusive = append(c.res.Inconclusive, "tcp pair: "+err.Error())
+		return
+	}
+	defer a.Close()
+	defer b.Close()
+	victim := []uint32{rpc.TypeRead, rpc.TypeWrite}[variant&1]
+	mustFail := variant&2 != 0
+	short, long := time.Second, 5*time.Second
+	rd, wr := long, short
+	if (victim == rpc.TypeRead) == mustFail {
+		rd, wr = short, long
+	}
+	types.RPCReadTimeout, types.RPCWriteTimeout = rd, wr
+	rpc.SetRPCTimeout()
+	defer func() {
+		types.RPCReadTimeout, types.RPCWriteTimeout = time.Second, time.Second
+		rpc.SetRPCTimeout()
+	}()
+	closeChan := make(chan struct{}, 8)
+	cl := rpc.NewClient(a, closeChan)
+	warm := r.Range(1, 6)
+	var sentAfter time.Duration
+	var delayed int32
+	done := make(chan struct{})
+	go func() {
+		defer close(done)
+		n := 0
+		for {
+			f, err := readFrame(b)
+			if err != nil {
+				return
+			}
+			out := &Frame{Magic: magic, Seq: f.Seq, Type: rpc.TypeResponse, Offset: f.Offset}
+			if f.Type == rpc.TypeRead {
+				out.Data = prfBytes(f.Offset, f.Size, 5)
+				out.Size = f.Size
+			} else {
+				out.Size = int64(len(f.Data))
+			}
+			if f.Type == victim {
+				n++
+				if n == warm+1 {
+					t := time.Now()
+					time.Sleep(3 * time.Second)
+					if writeFrame(b, out) == nil {
+						sentAfter = time.Since(t)
+						atomic.StoreInt32(&delayed, 1)
+					}
+					continue
+				}
+			}
+			writeFrame(b, out)
+		}
+	}()
+	call := func(t uint32, off int64) error {
+		if t == rpc.TypeRead {
+			_, err := cl.ReadAt(make([]byte, 512), off)
+			return err
+		}
+		_, err := cl.WriteAt(prfBytes(off, 512, 6), off)
+		return err
+	}
+	other := rpc.TypeRead + rpc.TypeWrite - victim
+	for i := 0; i < warm; i++ {
+		if err := call(victim, int64(i)*512); err != nil {
+			c.fail("call-failed-without-fault", fmt.Sprintf("warm-up call failed: %v", err), nil)
+			return
+		}
+		if err := call(other, int64(i)*512); err != nil {
+			c.fail("call-failed-without-fault", fmt.Sprintf("warm-up call failed: %v", err), nil)
+			return
+		}
+	}
+	t := time.Now()
+	err = call(victim, 1<<20)
+	took := time.Since(t)
+	name := map[uint32]string{rpc.TypeRead: "read", rpc.TypeWrite: "write"}[victim]
+	cfg := map[string]interface{}{"victim": name, "read_deadline": rd.String(), "write_deadline": wr.String(), "reply_delay": "3s", "took": took.String()}
+	c.res.Count("deadline_cases", 1)
+	c.res.Sig(fmt.Sprintf("deadline:%s:mustfail=%v", name, mustFail))
+	if mustFail {
+		if err == nil {
+			c.fail("deadline-not-enforced:"+name, fmt.Sprintf("a %s with a %v deadline (the other operation's is %v) was answered 3 s late and succeeded after %v", name, short, long, took), cfg)
+			return
+		}
+		time.Sleep(100 * time.Millisecond)
+		if len(closeChan) == 0 {
+			c.fail("failure-not-reported:deadline", "a request exceeded its deadline but nothing was sent on the close channel", cfg)
+		}
+		return
+	}
+	if err != nil {
+		if took > 4500*time.Millisecond {
+			c.res.Count("deadline_cases_too_slow_to_judge", 1)
+			return
+		}
+		c.fail("failed-before-its-deadline:"+name, fmt.Sprintf("a %s with a %v deadline (the other operation's is %v) was answered 3 s late and failed after %v with %q", name, long, short, took, err.Error()), cfg)
+		return
+	}
+	_ = sentAfter
+	_ = delayed
+}
+
 // RunWorker runs `cases` scenarios of all four parts.
 func RunWorker(prop string, seed uint64, worker, cases int, out string, thorough bool) error {
 	res := vk.NewResult("rpcsim")
@@ -764,7 +910,7 @@ func RunWorker(prop string, seed uint64, worker, cases int, out string, thorough
 	types.RPCWriteTimeout = time.Second
 	rpc.SetRPCTimeout()
 	quietLogs()
-	faults := []string{"", "", "stall", "close", "reset", "garbage", "late"}
+	faults := []string{"", "", "stall", "close", "reset", "garbage", "late", "fin", "deadline"}
 	for i := 0; i < cases; i++ {
 		cs := vk.Mix(seed, prop, fmt.Sprint(worker), fmt.Sprint(i))
 		r := vk.NewRand(cs)
@@ -775,11 +921,15 @@ func RunWorker(prop string, seed uint64, worker, cases int, out string, thorough
 		case 1:
 			matchScenario(c, r, "")
 		case 2:
-			f := faults[2+((i+worker)/4)%5]
+			f := faults[2+(worker+i/4)%7]
 			if thorough && worker == 2 && i == 2 {
 				f = "slow-ops-stall"
 			}
-			matchScenario(c, r, f)
+			if f == "deadline" {
+				deadlineScenario(c, r, (worker/7)*2+i/4)
+			} else {
+				matchScenario(c, r, f)
+			}
 		case 3:
 			e2eScenario(c, r)
 		}
